@@ -22,7 +22,7 @@ def run(tier):
                           "operations), uniform (temperature and raw velocity), adiabatic (5 feature types x 4 sentinel patterns), Chapman, half space / "
                           "plate model / plate model constant age (bottom sentinel, two velocities or ages), Gaussian plume, linear-in-distance for slabs "
                           "and faults, smooth compositions, uniform models with their own range (slabs, faults, plumes), laterally varying plate depth, uniform "
-                          "grains of all six feature types (listed matrices and sizes; z-x-z Euler angles against the documented matrix); each probed at the range ends, inside and (where it exists) in the feature but outside the model's range; "
+                          "composition (fractions, four operations, own range) and uniform grains of all six feature types (listed matrices and sizes; z-x-z Euler angles against the documented matrix); each probed at the range ends, inside and (where it exists) in the feature but outside the model's range; "
                           "relative tolerance 1e-9 (1e-8 for the 100-term series). non-trivial: all cases")
     c.assumptions += ["TLC decides the case analysis, the arithmetic comparison is numeric (exploration with a model-derived oracle)",
                       "smooth compositions are asserted at their documented anchor values (top / bottom, centre / side) and to lie between them; tian2019 water content, mass conserving and slab plate-model temperatures have no documented closed form and are not claimed here"]
